@@ -115,7 +115,7 @@ theorem listPop_spec (xs : List MVal) (hl : xs.length < 2 ^ 63) :
     have hs := goLen_sub_one (x :: xs) hl (by simp)
     have hne : ¬ (((x :: xs).length : Int) = (0 : I64).toInt) := by simp; omega
     simp only [hne, decide_false, Bool.false_eq_true, if_false]
-    rw [goIdx_eq _ _ (by rw [hs]; simp; omega), goSliceTo_eq _ _ hl (by rw [hs]; simp; omega) (by rw [hs]; omega), hs]
+    rw [goIdx_eq _ _ (by rw [hs]; simp), goSliceTo_eq _ _ hl (by rw [hs]; simp) (by rw [hs]; omega), hs]
     have : ((((x :: xs).length : Int) - 1).toNat) = (x :: xs).length - 1 := by omega
     rw [this, List.getLast?_eq_getElem?, List.dropLast_eq_take]
     simp
@@ -133,7 +133,7 @@ theorem listLast_spec (xs : List MVal) (hl : xs.length < 2 ^ 63) :
     have hs := goLen_sub_one (x :: xs) hl (by simp)
     have hne : ¬ (((x :: xs).length : Int) = (0 : I64).toInt) := by simp; omega
     simp only [hne, decide_false, Bool.false_eq_true, if_false]
-    rw [goIdx_eq _ _ (by rw [hs]; simp; omega), hs]
+    rw [goIdx_eq _ _ (by rw [hs]; simp), hs]
     have : ((((x :: xs).length : Int) - 1).toNat) = (x :: xs).length - 1 := by omega
     rw [this, List.getLast?_eq_getElem?]
     simp
@@ -151,8 +151,8 @@ theorem listPopFront_spec (xs : List MVal) (hl : xs.length < 2 ^ 63) :
     have hne : ¬ (((x :: xs).length : Int) = (0 : I64).toInt) := by simp; omega
     have h1 : (1 : I64).toInt = 1 := by decide
     simp only [hne, decide_false, Bool.false_eq_true, if_false]
-    rw [goIdx_eq _ _ (by simp), goSliceFrom_eq _ _ hl (by rw [h1]; omega) (by rw [h1]; simp)]
-    simp [h1]
+    rw [goIdx_eq _ _ (by simp), goSliceFrom_eq _ _ hl (by rw [h1]; omega) (by rw [h1]; simp; omega)]
+    simp
 
 /-! ## substring, repeat -/
 
